@@ -7,8 +7,8 @@ from vlib.oracle import positions
 PROPERTY = 'C09'
 RULE = ('cases are (table, seed collection): tables exhaustive n*m <= 12 (quick) / <= 16 (thorough) and Hypothesis '
         'fill families (diamond-rich: contranominal, interordinal, dense random) x every single concept, all ordered '
-        'pairs (<= 25 concepts; 150 seed-derived pairs above) and drawn multisets of 0-6 concepts with repeats and '
-        'comparable members, passed as list and as generator. Oracle: list(c.upset()) == reference {d >= c} sorted '
+        'pairs (<= 25 concepts; 150 seed-derived pairs above), drawn multisets of 0-6 concepts with repeats and '
+        'comparable members, and large collections (17, 24, k-1, k/2 distinct concepts; all but top and bottom), passed as list and as generator. Oracle: list(c.upset()) == reference {d >= c} sorted '
         'by index (exact list equality gives "once" and "rank order"); downset by dindex; upset_union(S) / '
         'downset_union(S) == sorted union of reference up/down-sets; empty S yields nothing. A seed collection is '
         'non-trivial when it has two comparable or repeated members, or is a single concept whose upset or downset '
@@ -48,6 +48,10 @@ def check_one(case, ctx, deep):
             got = [b.idx(c) for c in ctx.call('downset', q, lambda: list(by[i].downset()))]
             ctx.check(got == downs[i], 'downset', q, lambda: f'downset: indexes {got}, want {downs[i]} (dindex order)')
         seeds = [[i, j] for i, j in pairs(k, rnd, limit=25, sample=150)] + multisets(k, rnd, count=8, maxlen=6)
+        if k >= 6:   # large collections too: many distinct seeds, comparable and incomparable ones mixed
+            for size in (min(k, 17), min(k, 24), k - 1, k // 2 + 1):
+                seeds.append(rnd.sample(range(k), size))
+            seeds.append([i for i in range(k) if i not in (0, k - 1)])       # all but bottom and top
         for ms in seeds:
             q = lambda: {'table': plain, 'seeds': [list(positions(cs[t][0])) for t in ms]}
             comparable = any(a != b_ and (ref.leq(a, b_) or ref.leq(b_, a)) for a in ms for b_ in ms)
